@@ -126,7 +126,7 @@ def check(case):
 
 @st.composite
 def strategy(draw):
-    case = draw(gen_maps.pipeline_case(modes=["joined", "all", "best"], max_queries=8, min_queries=2,
+    case = draw(gen_maps.pipeline_case(flank_repeat=2, modes=["joined", "all", "best"], max_queries=8, min_queries=2,
                                        options=["-p", "-sp", "-d", "-ms", "-pt", "-md", "-ma", "-diff"], weight_default=3,
                                        kinds=["exact", "noisy", "noisy", "stretched", "indel", "chimeric", "partial", "repeat", "repeat", "short", "unrelated"]))
     if "-p" not in case["args"] and draw(st.booleans()):
